@@ -329,10 +329,18 @@ def coq_eval(lines, timeout=900):
 # ----------------------------------------------------------------------------------------------
 
 def load_findings():
-    p = os.path.join(VERIF, "KNOWN_FINDINGS.json")
-    if not os.path.exists(p):
-        return {"known": [], "fixed": []}
-    return json.load(open(p))
+    """KNOWN_FINDINGS.json plus per-property files findings/Cxx.json (same shape); never written at run time."""
+    res = {"known": [], "fixed": []}
+    paths = [os.path.join(VERIF, "KNOWN_FINDINGS.json")]
+    fd = os.path.join(VERIF, "findings")
+    if os.path.isdir(fd):
+        paths += [os.path.join(fd, f) for f in sorted(os.listdir(fd)) if f.endswith(".json")]
+    for p in paths:
+        if os.path.exists(p):
+            d = json.load(open(p))
+            res["known"] += d.get("known", [])
+            res["fixed"] += d.get("fixed", [])
+    return res
 
 
 class Check:
